@@ -714,6 +714,9 @@ def forall_over_field(self, rule, fn, field, check_pats, descr, extra_ok_checks=
         form = "loop"
         gd = CallGuard(check_pats, ("true",), "every element passes %s" % check_pats[0].split("::")[-1])
         ok = self.gate_reject(rule + ".loop", body, RetSink("true"), [gd] + list(extra_ok_checks), descr=descr + " (loop form)")
+        # ... and no element gets round the check (a `continue` before it): true only after every iteration passed it
+        ok = self.gate(rule + ".every", body, RetSink("true"), [[ForallGuard(field, check_pats, ("true",), "every element of .%s passed %s" % (field, check_pats[0].split("::")[-1]))]],
+                       descr=descr + " — no element skips the check") and ok
         # the loop whose body holds the check
         cand = [l for l in loops if direct[0]["id"] in g.reach((l["id"],))]
         src_local = op_local(cand[-1]["term"]["args"][0]) if cand else None
@@ -818,7 +821,7 @@ def _gate_here_or_in_callers(self, rule, body_path, fn_path, sink, guard, descr)
 Run.gate_here_or_in_callers = _gate_here_or_in_callers
 
 
-def _forall_compare(self, rule, fn_body, elem_src, other_src_parent, sink, descr, relation="Eq"):
+def _forall_compare(self, rule, fn_body, elem_src, other_src_parent, sink, descr, relation="Eq", source_field=None, source_calls=None):
     """`sink` in fn_body is reachable only if every element satisfies `elem <relation> other`.
     Recognises (A) a loop whose body compares and leaves on mismatch (K4r) and (B) `iter().any(|e| e != other)` /
     `iter().all(|e| e == other)` whose verdict cuts the sink.  elem_src(body) / other_src_parent(body) give seed locals;
@@ -831,7 +834,12 @@ def _forall_compare(self, rule, fn_body, elem_src, other_src_parent, sink, descr
     gd = CmpGuard(lambda b: Taint(b, through="all").closure(elem_src(b)), lambda b: Taint(b, through="all").closure(other_src_parent(b)), relation, descr, close=False)
     n, acc, rej = gd.edges(body)
     if acc and rej:
-        return self.gate_reject(rule, body, sink, [gd], descr=descr + " (loop form)")
+        ok = self.gate_reject(rule, body, sink, [gd], descr=descr + " (loop form)")
+        if source_field is not None or source_calls is not None:
+            # no element gets round the comparison
+            fg = ForallGuard(source_field, None, None, "every element was compared (%s)" % descr, check=gd, source_calls=source_calls)
+            ok = self.gate(rule + ".every", body, sink, [[fg]], descr=descr + " — no element skips the comparison") and ok
+        return ok
     # (B) any/all with a comparing closure
     neg = REL_NEG[relation]
     for blk in body.blocks:
@@ -1193,3 +1201,57 @@ def _wrapper_edges(F, body, gd):
                 acc |= wacc
                 via.append(nc.split("::")[-1])
     return n, acc, via
+
+
+def loops_over(F, body, source_pred):
+    """`Iterator::next` blocks of `body` whose iterator derives (through same-crate helpers) from something `source_pred(names, fields)` accepts.
+    Returns [(next_block, body_entry_blocks, exit_edges)]."""
+    prep(body)
+    out = []
+    ta = Taint(body)
+    for nb in body.blocks:
+        t = nb["term"]
+        if nb["cleanup"] or t["k"] != "call" or not (t["ngen"] or "").endswith("iterator::Iterator::next") or len(t["d"]) != 1:
+            continue
+        l0 = op_local(t["args"][0])
+        its = ta.ref_of.get(l0, set()) | {l0}
+        names, fields, local_names = [], set(), []
+        from flow import backward_calls
+        for l in its:
+            n_, f_ = _chain_calls(F, body, l)
+            names += n_
+            fields |= f_
+            local_names += [(c["ncallee"] or c.get("ngen") or "?") for c in backward_calls(body, l)[1]]
+        if not source_pred(names, fields):
+            continue
+        tr = Tracker(body)
+        tr.seed_call_result(t["d"][0], ("None",), False)
+        tr.run()
+        if tr.accept and tr.reject:
+            out.append((nb, tuple(d for _, d in tr.reject), tr.accept, local_names))
+    return out
+
+
+def _every_iteration(self, rule, body, source_pred, sink, descr, what):
+    """K5 over a loop: every iteration of the loop(s) over the given source passes a `sink` block before the next element is
+    taken (no element is skipped), and no element-dropping adaptor sits between the source and the iterator."""
+    prep(body)
+    g = cfg_of(body)
+    loops = loops_over(self.F, body, source_pred)
+    sinks = set(sink.blocks(body))
+    ok = bool(loops) and bool(sinks)
+    if not loops:
+        self.viol(rule, "loop-missing", "%s: no loop over %s found" % (body.path, what), body, body.lines[0])
+    for nb, starts, _exits, names in loops:
+        dropped = [n for n in names if any(n.endswith(x) or (x + "<") in n for x in DROPPING_ADAPTORS)]
+        if dropped:
+            ok = False
+            self.viol(rule, "element-dropped:%s" % dropped[0].split("::")[-1], "%s: elements of %s can be dropped by %s before the loop" % (body.path, what, dropped[0]), body, nb["term"]["l"])
+        if not sinks or nb["id"] in g.reach(starts, avoid=sinks):
+            ok = False
+            self.viol(rule, "element-skipped", "%s: an element of %s can be skipped (the loop comes round without `%s`)" % (body.path, what, sink.descr()), body, nb["term"]["l"])
+    self.inst(rule, "K5 must-follow (per element)", descr, len(loops), ok)
+    return ok
+
+
+Run.every_iteration = _every_iteration
